@@ -10,9 +10,10 @@ TRUSTED = [
     "key bit flips of generated authentic files (direct evaluation of the property)",
 ]
 ASSUMPTIONS = [
-    "single-byte damage inside a MAC'd span or a payload is detected unless the MAC collides on two equal-length inputs "
-    "differing in one byte (theorems *_rejected_or_collision); for the CBC-MAC over an injective block function such a "
-    "collision is impossible for one-block differences - stated, not yet proved in Lean",
+    "single-byte damage inside a MAC'd span or a payload: detected for every plug-in unless the MAC collides "
+    "(*_rejected_or_collision), and for the bundled AES plug-in always (mac_one_byte_replaced, payload_byte_damage_rejected, "
+    "entry_byte_damage_rejected: CBC-MAC over an invertible block cipher cannot collide on a one-block difference); damage to "
+    "several blocks at once keeps the collision alternative (cryptographic)",
     "'read with a different session key' and damage inside an encrypted auth block rest on a 16-bit CRC / AES not being the "
     "identity between keys: cryptographic, decided by search only",
     "damage to the unauthenticated length bytes (directory size, entry length, sentinel): covered by the exhaustive "
